@@ -112,7 +112,7 @@ class Builder:
         uid = self.new_uid()
         nm = self.name("OPT", uid)
         hlp = r.choice(['"Help text here"', '"h"', "HELP", '"with ${ref}"', '""', '"a: b"'])
-        dflt = r.choice([None, "ON", "OFF", '"ON"', "${DEFAULT}", "TRUE"])
+        dflt = r.choice([None, "ON", "OFF", '"ON"', "${DEFAULT}", "TRUE", "${lower_default}", "off"])
         args = [nm, hlp] + ([dflt] if dflt is not None else [])
         return Item("option", "option", args, uid, doc=self.doc(uid), name=nm, help=hlp, default=dflt)
 
@@ -120,8 +120,11 @@ class Builder:
         r = self.rng
         uid = self.new_uid()
         nm = self.name("VAR", uid)
-        n = r.choice([0, 1, 1, 2, 3])
+        n = r.choice([0, 1, 1, 2, 3, 3, 9, 14])
         vals = [self.simple_value() for _ in range(n)]
+        if n >= 9:      # long lists / long values (no line breaks): the rendered default exceeds any sane line width
+            vals = [v if r.random() < 0.5 else r.choice(["a_rather_long_identifier_value_" + str(i), '"quoted value number %d with spaces"' % i,
+                                                         "${A_LONG_VARIABLE_REFERENCE_%d}" % i]) for i, v in enumerate(vals)]
         if n == 0:
             ty, dv = "UNSET", None
         elif n == 1:
